@@ -102,7 +102,7 @@ def finish(ctx: Ctx, explanation: str, t0: float, replay: Optional[dict] = None)
     oks = [o for o in ctx.obligations if o.status == "OK"]
     notes = [o for o in ctx.obligations if o.status == "NOTE"]
 
-    ev_dir = os.path.join(VERIF, "evidence")
+    ev_dir = os.environ.get("SA_EVIDENCE_DIR") or os.path.join(VERIF, "evidence")
     os.makedirs(os.path.join(ev_dir, "violations"), exist_ok=True)
 
     for o in listed:
